@@ -362,8 +362,8 @@ Lemma member_boolop_merge : forall c V o, member o V = true -> member o (boolop_
 Proof.
   induction c; intros V o Hm; simpl; try exact Hm.
   - apply IHc. exact Hm.
-  - rewrite member_app, Hm. reflexivity.
-  - rewrite member_app, Hm. reflexivity.
+  - rewrite member_app, (IHc1 V o Hm). reflexivity.
+  - rewrite member_app, (IHc1 V o Hm). reflexivity.
 Qed.
 
 Theorem narrow_e2e_keeps_value_partial : forall V c pol o,
